@@ -45,7 +45,7 @@ def run_case(case):
         except Exception as e:
             return Outcome(Violation("C16:setup-exception:%s" % type(e).__name__, "creating the metafile raised %r" % (e,)), False)
         if case.get("prime"):
-            rk.tool_recheck(mf, parent if case["content_path"] == "parent" else root)     # first use, on the intact payload
+            rk.tool_recheck(mf, rk.content_of(case, root, parent))     # first use, on the intact payload
         changed = rk.apply_damage(root, case["tree"], case["damage"], keep_mtime=bool(case.get("prime")))
         ref = refcheck.verify(m, root)
         if ref.percent is None:
@@ -54,7 +54,7 @@ def run_case(case):
             raise HarnessError("reference verifier reports %r for intact content: %r" % (ref.percent, case))
         classes = rk.shape_classes(case, m) + damage_classes(case, changed)
         content = parent if case["content_path"] == "parent" else root
-        pct, exc = rk.tool_recheck(mf, content)
+        pct, exc = rk.tool_recheck(mf, rk.content_of(case, root, parent))
         stream = None
         if exc is None:
             try:
